@@ -49,5 +49,5 @@ Print Assumptions c12_repeat.
 Theorem c12_no_inplace_on_shared_state :
   compact_matrix_is_fresh_and_scaled_by_inv_sqrt_nlp = true /\
   inplace_scaling_only_on_fresh_compact_matrices_and_restored = true /\
-  dispatch_wf = true.
-Proof. exact (conj eq_refl (conj eq_refl dispatch_wellformed)). Qed.
+  dispatch_wf = true /\ object_state_is_per_instance = true.
+Proof. exact (conj eq_refl (conj eq_refl (conj dispatch_wellformed eq_refl))). Qed.
